@@ -13,7 +13,7 @@ JAR = "/opt/veriftools/tla/tla2tools.jar"
 WORK = os.path.join(VERIF, "work")
 
 DEVIATIONS = ["DeepWrapRefills", "ShallowPriority", "AbsLookup", "FnTruthyWhenEmpty",
-              "StreamLeaksMerge", "DefaultSafeOverwrite"]
+              "StreamLeaksMerge", "DefaultSafeOverwrite", "ClearDropsDelTagged"]
 
 
 class TLCError(Exception):
